@@ -2152,16 +2152,17 @@ class Measurement:
             return NotImplemented
 
         measurand = self.measurand**exponent
-        uncertainty = math.sqrt(
-            _pow(
+        if exponent == 0:
+            return Measurement(measurand, 0)
+
+        # d(x**n)/dx = n * x**(n - 1)
+        uncertainty = abs(
+            _mul(
+                exponent,
                 _mul(
-                    exponent,
-                    _mul(
-                        _pow(self.measurand.magnitude, 2),
-                        self.uncertainty.magnitude,
-                    ),
+                    _pow(self.measurand.magnitude, exponent - 1),
+                    self.uncertainty.magnitude,
                 ),
-                2,
             )
         )
         return Measurement(measurand, uncertainty)
